@@ -1,8 +1,8 @@
 """C01 — each cycle's wire values are a consistent, order-independent settlement."""
 from props.common_prog import judge_prog
 
-THEOREM_MODULES = ["Hcl.Theorems.C01"]
-THEOREMS = {"Hcl.Theorems.C01": ["C01_settlement", "C01_stable", "settled_unique", "C01_order_independent",
+THEOREM_MODULES = ["Hcl.Theorems.C01", "Hcl.Tie.Fixed"]
+THEOREMS = {"Hcl.Tie.Fixed": ["Tie.Fixed.fixedFunctions"], "Hcl.Theorems.C01": ["C01_settlement", "C01_stable", "settled_unique", "C01_order_independent",
                                  "settled_pure", "defn_local", "ev_congr"]}
 
 RULE = ("S-PROG: random DAG-shaped programs (1-25 wires over all operators, statements shuffled, 0-3 register banks, "
